@@ -2,7 +2,7 @@
 from zope.interface import (Interface, Attribute, implementer, implementer_only,
                             provider, classImplementsFirst, classImplements,
                             classImplementsOnly, directlyProvides, alsoProvides,
-                            noLongerProvides, implementedBy)
+                            noLongerProvides, implementedBy, directlyProvidedBy)
 
 
 class I0(Interface):
@@ -89,10 +89,88 @@ class L(D):                      # only, then a later plain declaration
 classImplementsOnly(L, I3)
 classImplements(L, I0)
 
-CLASSES = (Plain, A, B, C, D, E, F, G, H, J, K, L)
+
+
+@implementer_only(I2)
+class M(A):                      # an *only* form applied twice
+    pass
+
+
+classImplementsOnly(M, I1)
+
+
+class N(A):                      # class-provided through alsoProvides
+    pass
+
+
+alsoProvides(N, I2)
+
+
+class O(A):                      # class-provided with nested / wrapped arguments
+    pass
+
+
+directlyProvides(O, (I0, (I2,)))
+directlyProvides(O, directlyProvidedBy(O), I1)
+
+
+class P(A):                      # class-provided, then partly withdrawn
+    pass
+
+
+directlyProvides(P, I1, I2)
+noLongerProvides(P, I2)
+
+
+class FalsyMeta(type):
+    """Classes of this metaclass are falsy (think: an empty registry class)."""
+
+    def __len__(cls):
+        return 0
+
+
+@implementer(I1)
+class Q(metaclass=FalsyMeta):    # falsy class, declared
+    pass
+
+
+class R(Q):                      # falsy class, inherited declaration only
+    pass
+
+
+@implementer_only(I2)
+class S(Q):                      # falsy class, only form
+    pass
+
+
+@implementer(I2)
+class MetaT(type):               # a metaclass that itself implements I2
+    pass
+
+
+@implementer(I0)
+class T(metaclass=MetaT):        # its class provides I2 through the metaclass
+    pass
+
+
+@provider(I1)
+class U(T):                      # ... and something more, directly
+    pass
+
+
+class V(D):                      # only (inherited), then first and plain on top
+    pass
+
+
+classImplementsOnly(V, I2)
+classImplementsFirst(V, I1)
+classImplementsOnly(V, I3)
+
+CLASSES = (Plain, A, B, C, D, E, F, G, H, J, K, L, M, N, O, P, Q, R, S, T, U, V)
 IFACES = (I0, I1, I2, I3)
 
-INSTANCE_SHAPES = ('plain', 'dp_I2', 'dp_I1I2', 'ap_I0', 'dp_then_nlp', 'dp_I3', 'dp_empty')
+INSTANCE_SHAPES = ('plain', 'dp_I2', 'dp_I1I2', 'ap_I0', 'dp_then_nlp', 'dp_I3', 'dp_empty',
+                   'dp_nested', 'ap_twice')
 
 
 def make(cls, shape):
@@ -113,4 +191,10 @@ def make(cls, shape):
         directlyProvides(o, I3)
     elif shape == 'dp_empty':
         directlyProvides(o)
+    elif shape == 'dp_nested':
+        directlyProvides(o, (I2, [I1]))
+        directlyProvides(o, directlyProvidedBy(o), I0)
+    elif shape == 'ap_twice':
+        alsoProvides(o, I2)
+        alsoProvides(o, I1, I2)
     return o
